@@ -1,3 +1,4 @@
+import Harper.Driver.Markdown
 import Harper.Driver.Condense
 import Harper.Driver.Server
 import Harper.Driver.Effects
@@ -90,7 +91,13 @@ def handlers : List (String × (List String → String)) := [
   ("pieces", Condense.handlePieces),
   ("javadoc", Mask.handleJavadoc), ("gopar", Mask.handleGoPar), ("jdmark", Mask.handleJdMark),
   ("cfgp", Effects.handleCfgp), ("effc", Effects.handleEffc),
-  ("dfp", DictIO.handleDfp)
+  ("dfp", DictIO.handleDfp),
+  ("mdparse", Markdown.handleMdParse),
+  ("evok", Markdown.handleEvOk),
+  ("wikiclean", Markdown.handleWikiClean),
+  ("collapse", Markdown.handleCollapse),
+  ("isolate", Markdown.handleIsolate),
+  ("isolatev", Markdown.handleIsolateV)
 ]
 
 def handle (line : String) : String :=
